@@ -32,6 +32,16 @@ def base_types():
     ]
 
 
+DEFAULT_LEAF = {"Int": "5", "Float": "1.5", "String": '"s"', "Boolean": "true", "ID": '"x"', "Role": "A", "InObj": "{x: 1}"}
+
+
+def default_literal(t, leaf):
+    inner = t[1] if t[0] == "NN" else t
+    if inner[0] == "L":
+        return "[" + default_literal(inner[1], leaf) + "]"
+    return leaf
+
+
 def build_case(kind, position, exprs):
     """Returns (schema, doc, expected) where expected maps wire name -> (type expr, leaf ident)."""
     types = base_types()
@@ -63,9 +73,14 @@ def build_case(kind, position, exprs):
         doc = gql.Doc([gql.Op("query", "Op", [gql.Field("a")], vars_)])
     elif position == "input_field":
         types.append(gql.obj("Q", [("a", "Int")]))
-        types.append(gql.inp("Holder", [("g%d" % i, t) for i, t in enumerate(exprs)]))
+        hf = [gql.FieldDef("g%d" % i, t) for i, t in enumerate(exprs)]
         for i, t in enumerate(exprs):
             expected["g%d" % i] = (t, kind)
+            # the same expression on a field that declares a schema default: the default never changes the type
+            if kind in DEFAULT_LEAF:
+                hf.append(gql.FieldDef("d%d" % i, t, default=default_literal(t, DEFAULT_LEAF[kind])))
+                expected["d%d" % i] = (t, kind)
+        types.append(gql.inp("Holder", hf))
         doc = gql.Doc([gql.Op("query", "Op", [gql.Field("a")], [("h", "Holder", None)])])
     elif position == "oneof_member":
         types.append(gql.obj("Q", [("a", "Int")]))
@@ -219,7 +234,7 @@ def run(tier):
         "traces_validated_against_impl": validated,
         "evaluations": len(reqs) + validated, "distinct_nontrivial": states,
         "rule": "state = (type expression of list depth <= 4, kind of named type, position, schema format); all 62 "
-                "expressions x 10 output / 8 input kinds x 4 positions x 2 formats (the @oneOf position only for "
+                "expressions x 10 output / 8 input kinds x 4 positions (input fields also with a declared default value) x 2 formats (the @oneOf position only for "
                 "nullable outermost expressions); transition = comparison of the emitted field type with the "
                 "model rule, plus one conformance run per (field, null injected at nesting level) on compiled code",
         "exhaustive": True,
